@@ -391,6 +391,7 @@ func (e *env) runReset(h []int, to uint32, gcFirst bool) (crashes int, rec *case
 }
 
 func TestCheck(t *testing.T) {
+	vk.UseT(t)
 	r := vk.Start("C02", "fault_enumeration", 170*time.Second, 25*time.Minute)
 	defer vk.CleanScratch()
 	if r.Replay != "" {
